@@ -682,6 +682,62 @@ def rule_uses(ctx, rep, rid="R-C02-uses"):
                               "an undeclared name there is accepted" % (inst, why, snake(short)))
 
 
+def rule_globalkind(ctx, rep, rid="R-C02-globalkind"):
+    """"The global variables" are the declarations in VAR_GLOBAL blocks.  A visitor that collects names into a table of globals while
+    walking *all* variable declarations must test the declaration's kind: otherwise a local of the same name in some other POU is
+    taken for the global (a local CONSTANT made every plain VAR_EXTERNAL of that name an error)."""
+    r = rep.rule(rid, "a table of global variables filled from visit_var_decl only takes declarations whose var_type is Global (the insert is "
+                      "dominated by the true edge of `node.var_type == VariableType::Global`)", floor=1, floor_what="inserts into tables of globals")
+    n = 0
+    for b in sorted(ctx.prog.bodies.values(), key=lambda x: x.id):
+        if b.f["crate"] != "ironplc_analyzer" or not b.f["name"].startswith("visit_") or "::test" in norm(b.id):
+            continue
+        in_decl = b.f["name"] == "visit_var_decl"
+        for c in sorted(b.calls(), key=lambda c: (c.loc[0], c.loc[1])):
+            if (c.callee or "").split("::")[-1] not in ("insert", "push", "add", "try_add", "add_if_new") or not c.args:
+                continue
+            p0 = op_place(c.args[0])
+            rt = b.root(p0) if p0 is not None else None
+            fl = [x[2] for x in (rt[1] if rt else []) if isinstance(x, list) and x[0] == "f"]
+            if not (rt and rt[0] == 1 and fl and "global" in fl[-1].lower()):
+                continue
+            n += 1
+            vis = re.sub(r"<.*", "", ((b.f.get("impl") or {}).get("self") or "?").split("::")[-1])
+            inst = "%s.%s|insert in %s" % (vis, fl[-1], b.f["name"])
+            if not in_decl:
+                # filled from a node's own list of globals: the kind is given by the list (which lists are read is R-C02-reach's question)
+                lists = sorted({x[2] for i, j, st in b.all_stmts() if st[0] == "=" and st[2][0] in ("ref", "use", "copy") for pp in [op_place(st[2][-1]) if st[2][0] != "ref" else st[2][-1]]
+                                if pp is not None for x in pp[1] if isinstance(x, list) and x[0] == "f" and "global" in x[2].lower()})
+                r.ok(inst, loc_str(b.f, c.loc), "filled from the VAR_GLOBAL list(s) %s of the node" % ", ".join(lists))
+                continue
+            ok = False
+            dom = b.dominators()
+            for d in dom.get(c.bb, set()):
+                si = switch_info(b, d)
+                if not (si and si["kind"] == "bool" and si["subject"][0] == "call"):
+                    continue
+                cc = si["subject"][1]
+                if (cc.u or "") != "core::cmp::PartialEq::eq" or len(cc.args) != 2:
+                    continue
+                sides = []
+                for a in cc.args:
+                    ap = op_place(a)
+                    art = b.root(ap) if ap is not None else None
+                    f2 = [x[2] for x in (art[1] if art else []) if isinstance(x, list) and x[0] == "f"]
+                    k = b.const_of(a)
+                    sides.append(("field", f2[-1]) if f2 else (("variant", k[3].get("variant")) if k is not None and len(k) > 3 and isinstance(k[3], dict) else None))
+                if ("field", "var_type") in sides and ("variant", "Global") in sides:
+                    for succ, labs in si["edges"].items():
+                        if labs == [True] and (succ == c.bb or succ in dom.get(c.bb, set())):
+                            ok = True
+            if ok:
+                r.ok(inst, loc_str(b.f, c.loc), "only VAR_GLOBAL declarations")
+            else:
+                r.finding(inst + "|kind-not-tested", loc_str(b.f, c.loc), "every variable declaration with the qualifier is entered into the table of globals, whatever block it "
+                          "is declared in: a local of the same name is mistaken for the global")
+    r.note("%d inserts into tables of globals" % n)
+
+
 def run(ctx, rep):
     rep.not_decided += ["that each rule's predicate is the documented one (value-level; decided only for the subrange comparison, R-C02-order)", "acceptance of all valid programs",
                         "single/double-fault behaviour on generated programs"]
@@ -706,3 +762,4 @@ def run(ctx, rep):
     from rules.c06 import rule_pipeline
     rule_pipeline(ctx, rep, rid="R-C02-pipeline")
     rule_uses(ctx, rep)
+    rule_globalkind(ctx, rep)
